@@ -125,6 +125,8 @@ enum ValueMode {
     Unique,
     Random,
     Boundary,
+    /// coincidences: mostly re-use a value (or number byte) seen recently on the channel
+    Echo,
 }
 
 #[derive(Clone, Debug)]
@@ -169,6 +171,7 @@ impl Cfg {
                 ValueMode::Unique => "unique",
                 ValueMode::Random => "random",
                 ValueMode::Boundary => "boundary",
+                ValueMode::Echo => "echo",
             }))
             .set("two_numbers", J::Bool(self.two_numbers))
             .set("repr", self.repr.map(J::i).unwrap_or(J::s("mixed")))
@@ -191,7 +194,12 @@ pub fn draw_cfg(r: &mut Rng, p: &Preset) -> Cfg {
         11 | 12 => 1_000_000_000,
         13 => u64::MAX as u128,
         14 => DUR_MAX_NS,
-        _ => *r.pick(&TIMEOUTS),
+        _ => match r.below(4) {
+            0 => *r.pick(&TIMEOUTS),
+            1 => 1 + r.below(1u64 << 40) as u128,
+            2 => 1_500_000_000,
+            _ => (1 + r.below(100_000) as u128) * 1_000_000_000 + r.below(1_000_000_000) as u128,
+        },
     };
     // active channels: a random subset, so that high channel numbers also occur in small rigs
     let nch = match r.below(10) {
@@ -210,7 +218,7 @@ pub fn draw_cfg(r: &mut Rng, p: &Preset) -> Cfg {
     all.truncate(nch);
     let flat = r.below(1000) < p.flat_pm;
     let len = if r.chance(3, 4) { 3 + r.below(28) as usize } else { 30 + r.below(370) as usize };
-    let value_mode = *r.pick(&[ValueMode::Unique, ValueMode::Random, ValueMode::Boundary]);
+    let value_mode = *r.pick(&[ValueMode::Unique, ValueMode::Random, ValueMode::Boundary, ValueMode::Echo]);
     let fault_free = r.chance(1, 3);
     let mut rate = [0u64; N_FAULTS];
     if !fault_free {
@@ -383,6 +391,8 @@ pub struct Gen<'a> {
     rr_next: usize,
     stall_left: u32,
     snap_state: Option<([bool; 16], [bool; 16])>,
+    recent: [[u8; 4]; 16],
+    recent_pos: [u8; 16],
 }
 
 fn is_pn(cn: u8) -> bool {
@@ -392,8 +402,10 @@ fn is_pn(cn: u8) -> bool {
 impl<'a> Gen<'a> {
     pub fn generate(r: &'a mut Rng, p: &'a Preset, stats: &'a mut Probes) -> (Trace, Cfg) {
         let cfg = draw_cfg(r, p);
-        let numbers = [(r.below(16384) as u16, r.chance(1, 2)), (r.below(16384) as u16, r.chance(1, 2))];
-        let mut g = Gen { r, p, cfg, ev: Vec::new(), next_group: 0, uniq: [0; 16], numbers, inflight: [false; 16], pending_value: [false; 16], stats, rr_next: 0, stall_left: 0, snap_state: None };
+        let special = [0u16, 1, 2, 5, 6, 127, 128, 16383];
+        let mut pick_num = |r: &mut Rng| if r.chance(1, 3) { *r.pick(&special) } else { r.below(16384) as u16 };
+        let numbers = [(pick_num(r), r.chance(1, 2)), (pick_num(r), r.chance(1, 2))];
+        let mut g = Gen { r, p, cfg, ev: Vec::new(), next_group: 0, uniq: [0; 16], numbers, inflight: [false; 16], pending_value: [false; 16], stats, rr_next: 0, stall_left: 0, snap_state: None, recent: [[0, 127, 64, 1]; 16], recent_pos: [0; 16] };
         if g.cfg.channels.len() > 1 {
             g.stats.multi_channel_runs += 1;
         }
@@ -466,11 +478,32 @@ impl<'a> Gen<'a> {
                     self.r.u7()
                 }
             }
+            ValueMode::Echo => {
+                let v = if self.r.chance(3, 5) {
+                    let k = self.r.below(4) as usize;
+                    let e = self.recent[ch as usize][k];
+                    match self.r.below(8) {
+                        0 => e.wrapping_add(1) & 0x7f,
+                        1 => e.wrapping_sub(1) & 0x7f,
+                        2 => 0,
+                        _ => e,
+                    }
+                } else {
+                    self.r.u7()
+                };
+                self.note_recent(ch, v);
+                v
+            }
         }
+    }
+    fn note_recent(&mut self, ch: u8, v: u8) {
+        let k = self.recent_pos[ch as usize] as usize % 4;
+        self.recent[ch as usize][k] = v;
+        self.recent_pos[ch as usize] = self.recent_pos[ch as usize].wrapping_add(1);
     }
     fn value14(&mut self, ch: u8) -> u16 {
         match self.cfg.value_mode {
-            ValueMode::Unique => (self.value7(ch) as u16) * 128 + self.value7(ch) as u16,
+            ValueMode::Unique | ValueMode::Echo => (self.value7(ch) as u16) * 128 + self.value7(ch) as u16,
             ValueMode::Random => self.r.below(16384) as u16,
             ValueMode::Boundary => {
                 if self.r.chance(3, 4) {
@@ -486,8 +519,13 @@ impl<'a> Gen<'a> {
             let k = self.r.below(2) as usize;
             self.numbers[k]
         } else {
-            let n = if self.r.chance(1, 4) { *self.r.pick(&[0u16, 127, 128, 16383, 16256]) } else { self.r.below(16384) as u16 };
-            (n, self.r.chance(1, 2))
+            match self.r.below(12) {
+                // standard registered parameters (pitch bend range ... MPE configuration) and the RPN null function
+                0 | 1 => (self.r.below(7) as u16, self.r.chance(5, 6)),
+                2 => (16383, self.r.chance(3, 4)),
+                3 | 4 => (*self.r.pick(&[0u16, 127, 128, 129, 16383, 16256, 16382, 8192]), self.r.chance(1, 2)),
+                _ => (self.r.below(16384) as u16, self.r.chance(1, 2)),
+            }
         }
     }
 
@@ -634,8 +672,12 @@ impl<'a> Gen<'a> {
             // arbitrary Control Changes over all 128 controller numbers
             let n = 1 + self.r.below(3);
             for _ in 0..n {
-                let cn = self.r.u7();
-                let v = self.r.u7();
+                // half of it: controllers with a meaning of their own (bank select, sustain, channel mode 120-127)
+                let (cn, v) = if self.r.chance(1, 2) {
+                    (*self.r.pick(&[0u8, 32, 64, 65, 120, 121, 122, 123, 124, 125, 126, 127, 102, 95]), *self.r.pick(&[0u8, 0, 127, 64, 1]))
+                } else {
+                    (self.r.u7(), self.r.u7())
+                };
                 let gap = self.gap();
                 q.push_back(Item { gap, msg: Wire::Lit { b: [0xB0 | ch, cn, v] } });
             }
@@ -814,8 +856,11 @@ impl<'a> Gen<'a> {
         let s = if self.r.chance(1, 2) { 0xB0 | ch } else { 0x80 + self.r.u7() };
         let mut b = [s, self.r.u7(), self.r.u7()];
         if b[0] & 0xF0 == 0xB0 {
+            if self.r.chance(1, 3) {
+                b[2] = *self.r.pick(&[0u8, 127, 64]);
+            }
             loop {
-                let cn = 64 + self.r.below(64) as u8;
+                let cn = if self.r.chance(1, 3) { 120 + self.r.below(8) as u8 } else { 64 + self.r.below(64) as u8 };
                 if !is_pn(cn) {
                     b[1] = cn;
                     break;
